@@ -8,12 +8,15 @@ import (
 	"net"
 	"os"
 	"path/filepath"
+	"runtime"
 	"strings"
 	"sync/atomic"
 	"time"
 
 	"lalverif/fw"
+	"lalverif/gen"
 	"lalverif/ref"
+	"lalverif/srv"
 
 	"github.com/q191201771/lal/pkg/base"
 	"github.com/q191201771/lal/pkg/httpflv"
@@ -379,6 +382,130 @@ func c11FileOnce(c *fw.Ctx, path string, n int, pass int) bool {
 	return true
 }
 
+func c11Storms(tier string) int {
+	if tier == "thorough" {
+		return 16
+	}
+	return 4
+}
+
+// c11JoinStorm: whole server, a publisher that sends back to back, and HTTP-FLV / WS-FLV players
+// joining at arbitrary instants of the broadcast. Whatever the interleaving, the first bytes a
+// player reads are the HTTP status line, and the first body bytes (first WebSocket payload) are the
+// 9-byte FLV header and the zero back-pointer.
+func c11JoinStorm(c *fw.Ctx, k int) {
+	root := filepath.Join(c.Scratch, fmt.Sprintf("c11storm-%d", c.Index))
+	os.MkdirAll(root, 0755)
+	defer os.RemoveAll(root)
+	s, err := srv.Start(srv.Conf{Flv: true, FlvGop: k % 3, RtmpGop: k % 2}, root)
+	if err != nil {
+		c.Inconclusive("server start: %v", err)
+		return
+	}
+	defer s.Stop()
+	name := fmt.Sprintf("storm%d", c.Index)
+	pr, err := ref.StartRtmpPublisher(s.RtmpAddr(), "live", name, 5*time.Second)
+	if err != nil {
+		c.Inconclusive("publisher: %v", err)
+		return
+	}
+	defer pr.Close()
+	msgs := gen.Build(c.SubRng("storm"), 1, gen.Shape{Name: "storm", Video: true, Audio: true, Meta: true, Gops: 100, GopLen: 5, AudioPerVid: 1, Sizes: []int{60, 200, 900}})
+	var stop int32
+	pubDone := make(chan struct{})
+	pace := []time.Duration{0, 0, 50 * time.Microsecond, 300 * time.Microsecond}[k%4]
+	go func() {
+		defer close(pubDone)
+		span := msgs[len(msgs)-1].Ts + 40
+		for cycle := uint32(0); cycle < 200; cycle++ {
+			for k, m := range msgs {
+				if atomic.LoadInt32(&stop) != 0 {
+					return
+				}
+				if cycle > 0 && !m.IsMedia() {
+					continue
+				}
+				if pr.RC.Send(ref.RtmpMsg{Csid: csidFor(m.Type), TypeID: m.Type, StreamID: pr.Msid, Ts: m.Ts + cycle*span, Payload: m.Payload}, 0) != nil {
+					return
+				}
+				if pace > 0 {
+					time.Sleep(pace)
+				} else if k%64 == 63 {
+					runtime.Gosched()
+				}
+			}
+		}
+	}()
+	joins := 0
+	for n := 0; n < 400; n++ {
+		select {
+		case <-pubDone:
+			n = 400
+			continue
+		default:
+		}
+		ws := n%2 == 1
+		conn, err := net.DialTimeout("tcp", s.HttpAddr(), 2*time.Second)
+		if err != nil {
+			continue
+		}
+		req := "GET /live/" + name + ".flv HTTP/1.1\r\nHost: x\r\n"
+		if ws {
+			req += "Upgrade: websocket\r\nConnection: Upgrade\r\nSec-WebSocket-Key: dGhlIHNhbXBsZSBub25jZQ==\r\nSec-WebSocket-Version: 13\r\n"
+		}
+		conn.Write([]byte(req + "\r\n"))
+		var got []byte
+		buf := make([]byte, 8192)
+		conn.SetReadDeadline(time.Now().Add(700 * time.Millisecond))
+		for len(got) < 1500 {
+			m, e := conn.Read(buf)
+			got = append(got, buf[:m]...)
+			if e != nil {
+				break
+			}
+		}
+		conn.Close()
+		if len(got) < 9 {
+			continue // nothing (or next to nothing) arrived in time: nothing to judge
+		}
+		joins++
+		c.Eval(1)
+		kind := map[bool]string{false: "http-flv", true: "ws-flv"}[ws]
+		c.Cell("join-storm/%s/pace=%v", kind, pace)
+		if !bytes.HasPrefix(got, []byte("HTTP/1.1 ")) {
+			c.Violate("join/bytes-before-http-header/"+kind, fmt.Sprintf("join %d: the response does not start with the HTTP status line: first bytes %q", n, got[:min(len(got), 40)]), nil)
+			return
+		}
+		he := bytes.Index(got, []byte("\r\n\r\n"))
+		if he < 0 {
+			continue
+		}
+		body := got[he+4:]
+		if ws {
+			var wp ref.WsParser
+			wp.Feed(body)
+			if wp.Err != nil {
+				c.Violate("join/ws-frame/"+kind, fmt.Sprintf("join %d: first WebSocket frames do not parse: %v", n, wp.Err), nil)
+				return
+			}
+			body = nil
+			for _, f := range wp.Frames {
+				body = append(body, f.Payload...)
+			}
+		}
+		if len(body) >= 13 && !bytes.Equal(body[:13], []byte{'F', 'L', 'V', 1, body[4], 0, 0, 0, 9, 0, 0, 0, 0}) {
+			c.Violate("join/flv-header-not-first/"+kind, fmt.Sprintf("join %d: the body does not start with the FLV header and the zero back-pointer: % x", n, body[:13]), nil)
+			return
+		}
+	}
+	atomic.StoreInt32(&stop, 1)
+	<-pubDone
+	c.Count("storm_joins_judged", joins)
+	if joins < 20 {
+		c.Inconclusive("only %d joins produced data", joins)
+	}
+}
+
 func c11Sizes(tier string) (nPack, nFile, nSess int) {
 	if tier == "thorough" {
 		return 64, 64, 16
@@ -391,10 +518,10 @@ func init() {
 		ID: "C11",
 		NumCases: func(tier string, seed int64) int {
 			a, b, s := c11Sizes(tier)
-			return a + b + s + 1
+			return a + b + s + 1 + c11Storms(tier)
 		},
 		CaseTimeout: func(string) time.Duration { return 5 * time.Minute },
-		Rule: "PackHttpflvTag / RtmpMsg2FlvTag / FlvTag2RtmpMsg / ModTagTimestamp / ReadTag for tag types 8,9,18 × lengths (all 0..4200, strided to 70000, boundaries to 2^24−1) × timestamps across the 24-bit boundary and up to 2^32−1, parsed by a strict FLV parser; FlvFileWriter→file→strict parser and FlvFileReader, incl. 2–3 recordings written to the same path one after the other (later ones shorter); MakeWsFrameHeader for every length 0..70000 and 2^16±1, 2^31, 2^32, 2^63−1 × flag combinations parsed by an RFC 6455 parser; real httpflv.SubSession (plain and WebSocket) over loopback TCP with tag sizes around 125/126/127 and 65535/65536. cell = API × length class × timestamp class.",
+		Rule: "PackHttpflvTag / RtmpMsg2FlvTag / FlvTag2RtmpMsg / ModTagTimestamp / ReadTag for tag types 8,9,18 × lengths (all 0..4200, strided to 70000, boundaries to 2^24−1) × timestamps across the 24-bit boundary and up to 2^32−1, parsed by a strict FLV parser; FlvFileWriter→file→strict parser and FlvFileReader, incl. 2–3 recordings written to the same path one after the other (later ones shorter); MakeWsFrameHeader for every length 0..70000 and 2^16±1, 2^31, 2^32, 2^63−1 × flag combinations parsed by an RFC 6455 parser; real httpflv.SubSession (plain and WebSocket) over loopback TCP with tag sizes around 125/126/127 and 65535/65536; whole-server join storms: up to 400 HTTP-FLV / WS-FLV players joining while a publisher sends back to back (or 50/300 µs apart) — status line first, FLV header and zero back-pointer first in the body. cell = API × length class × timestamp class.",
 		Assumptions: []string{"ref/flv.go and ref/ws.go are strict parsers written from the specifications", "loopback session writes stay far below the 1024-entry queue (no back-pressure)"},
 		MinCells: 12,
 		Run: func(c *fw.Ctx, i int) {
@@ -440,6 +567,9 @@ func init() {
 				c.Describe("loopback session ws=%v", ws)
 				c11Session(c, ws)
 				c.Sample(map[string]interface{}{"kind": "loopback-session", "websocket": ws})
+			case i >= nP+nF+nS+1:
+				c.Describe("join storm %d", i-(nP+nF+nS+1))
+				c11JoinStorm(c, i-(nP+nF+nS+1))
 			default:
 				c.Describe("ws header grid")
 				for l := uint64(0); l <= 70000; l++ {
